@@ -392,6 +392,7 @@ void World::take_stop_snapshot(const std::string& what) {
 
 void World::epilogue() {
     in_epilogue = true; t_epilogue = now();
+    for (auto& st : net->streams) if (st->open && st->closed_ns < 0 && !st->shut) open_before_epilogue.insert(st->id);
     if (!capped && client && client->alive() && all_user_ops_done()) { bool all = true; for (auto& o : ops) if (o.completions == 0 && o.kind != Action::RUN && o.kind != Action::RECV) all = false; if (all) { auto p = client->peek(); if (p.available) free_ids_at_quiet = p.free_ids_total; } }
     if (capped && cap_reason.rfind("REPLAY", 0) == 0) return;
     if (!sc.epilogue_cancel || !client || !client->alive()) { drain_checked = false; }
